@@ -26,13 +26,24 @@ def run(ctx):
                 e["stream"] = e["stream"][:64] + ["..."]
                 samples.append(e)
     val["accepted_scenarios"] = val["accepted"]
+    pk = {"parsed": 0, "skipped": 0, "unparsed": 0}
+    for i in val["infos"]:
+        if i.startswith("pk "):
+            for kv in i.split()[1:]:
+                k, v = kv.split("=")
+                pk[k] += int(v)
     return ctx.finish(
         "model_checking", val, evaluations=int(stats["scenarios"]), samples=samples,
         rule="scenario = one Encode of baseline / extended 8+12 / lossless 0..7 / SV1 / JPEG-LS lossless+near / JPEG 2000 reversible, "
              "irreversible, tiled (up to 64 tiles), layered, rate-targeted, all progressions, HT block coder; noise-weighted content; "
              "dimensions needing both size bytes (256, 257, 4096, 65535 with the other dimension small). The strict walkers of "
-             "spec/Markers.tla accept the stream and the header must declare the request. distinct_nontrivial = distinct (api, "
+             "spec/Markers.tla accept the stream and the header must declare the request. JPEG 2000 streams are also read packet by "
+             "packet by the strict T.800 B.10 reader of spec/PacketHeader.tla (geometry, tag trees, pass counts, Lblock, lengths, bit "
+             "stuffing, all five progressions); it is used to name one listed defect - a packet header ending in 0xFF without the "
+             "stuffed byte - on streams with plain packet structure (a family of single-code-block noise images puts header ends on "
+             "0xFF); packet_reader = how many streams it parsed completely / skipped (HT) / could not follow (user-defined precincts, "
+             "tile-local geometry, empty sub-bands: counted, not judged). distinct_nontrivial = distinct (api, "
              "components, precision, lossless, HT, tiled, layered, progression)",
         assumptions=["spec/Markers.tla is a faithful transcription of T.81 Annex B, T.87 Annex C, T.800 Annex A marker syntax",
                      "the walkers check framing and header fields; the entropy-coded payload is only checked for marker codes"],
-        extra={"driver_stats": stats}, distinct=len(classes))
+        extra={"driver_stats": stats, "packet_reader": pk}, distinct=len(classes))
